@@ -6,6 +6,7 @@ Property theorems only (plus the small lemmas they need, marked `private`); the 
 -/
 import Olla.Model.Balancer
 import Olla.Spec.C06
+import Olla.Spec.State
 
 namespace Olla.Props.C06
 open Olla.Model.Balancer Olla.Spec.C06
@@ -382,5 +383,14 @@ example : prioritySelectTier (topTier exL) 3 = some ⟨1, 2, "healthy", 1⟩ := 
 example : (rrSelect 4 exL).map (·.id) = some 1 := by decide
 example : (lcSelect exL).map (·.id) = some 2 := by decide
 example : (3 : Nat) + 3 * 2 ≤ 2 ^ 64 := by decide
+
+/-! ### tie: no process-wide state on the modelled path
+
+The theorems above are about single calls (or the history of one object). They cover every
+request of a running process only if a call reaches no state that outlives it besides that
+object. `Olla.Gen.State` is re-read from the source on every run: the package-level variables
+reachable from each function inside its package that the package changes after initialisation. -/
+theorem C06_tie_no_process_wide_state :
+    Olla.Spec.State.reachesOnly "balancer.Select" [] = true := by decide
 
 end Olla.Props.C06
